@@ -360,14 +360,267 @@ def undo_flips(fn: ast.AST, base_cmp: List[str],
     return k
 
 
+# ---------------------------------------------------------------------
+# inert statements, fresh temporaries, guard clauses
+#
+# Three more behaviour-preserving edits are undone against the baseline:
+#   * a logging statement the baseline function did not have is dropped
+#     (logging does not touch the state any property speaks about);
+#   * a local the baseline function did not have, bound once to an
+#     effect-free expression and read only by the statement that follows the
+#     binding, is inlined there (the hoisted sub-expression goes back);
+#   * `if not c: return|continue` followed by the rest of a function / loop
+#     body is folded back to the baseline's `if c: <rest>` and vice versa.
+_LOGGERS = {'logger', 'log', 'logging', '_logger', 'LOG'}
+_LEVELS = {'debug', 'info', 'warning', 'warn', 'error', 'exception',
+           'critical', 'log'}
+
+
+def _is_log_stmt(st: ast.AST) -> bool:
+    if not (isinstance(st, ast.Expr) and isinstance(st.value, ast.Call)):
+        return False
+    f = st.value.func
+    if not (isinstance(f, ast.Attribute) and f.attr in _LEVELS):
+        return False
+    base = f.value
+    while isinstance(base, ast.Attribute):
+        base = base.value
+    if not (isinstance(base, ast.Name) and (
+            base.id in _LOGGERS or (isinstance(f.value, ast.Attribute) and
+                                    f.value.attr in _LOGGERS))):
+        return False
+    return not any(isinstance(x, (ast.Await, ast.Yield, ast.YieldFrom,
+                                  ast.NamedExpr)) for x in ast.walk(st))
+
+
+def _blocks(fn: ast.AST):
+    """(owner node, field name, statement list) of every block in fn"""
+    for n in ast.walk(fn):
+        for f in ('body', 'orelse', 'finalbody'):
+            b = getattr(n, f, None)
+            if isinstance(b, list) and b and isinstance(b[0], ast.stmt):
+                yield n, f, b
+
+
+def log_stmts(fn: ast.AST) -> List[str]:
+    return [_u(st) for _o, _f, b in _blocks(fn) for st in b
+            if _is_log_stmt(st)]
+
+
+def strip_new_logs(fn: ast.AST, base_logs: List[str]) -> int:
+    from collections import Counter
+    want = Counter(base_logs)
+    k = 0
+    for _o, _f, b in list(_blocks(fn)):
+        keep = []
+        for st in b:
+            if _is_log_stmt(st):
+                t = _u(st)
+                if want[t] > 0:
+                    want[t] -= 1
+                else:
+                    k += 1
+                    continue
+            keep.append(st)
+        if len(keep) != len(b):
+            if not keep:
+                keep = [ast.copy_location(ast.Pass(), b[0])]
+            b[:] = keep
+    return k
+
+
+_PURE = (ast.Name, ast.Attribute, ast.Constant, ast.Load, ast.Subscript,
+         ast.Tuple, ast.Slice)
+_SIMPLE = (ast.Assign, ast.AugAssign, ast.AnnAssign, ast.Expr, ast.Return,
+           ast.Raise, ast.Assert, ast.Delete)
+
+
+def _pure(e: ast.AST) -> bool:
+    return all(isinstance(x, _PURE) for x in ast.walk(e))
+
+
+class _Subst(ast.NodeTransformer):
+    def __init__(self, name, value):
+        self.name, self.value, self.n = name, value, 0
+
+    def visit_Name(self, node):
+        if node.id == self.name and isinstance(node.ctx, ast.Load):
+            import copy
+            self.n += 1
+            return ast.copy_location(copy.deepcopy(self.value), node)
+        return node
+
+
+def _header(st: ast.AST) -> List[ast.AST]:
+    if isinstance(st, _SIMPLE):
+        return [st]
+    if isinstance(st, (ast.If, ast.While)):
+        return [st.test]
+    if isinstance(st, (ast.For, ast.AsyncFor)):
+        return [st.iter]
+    if isinstance(st, (ast.With, ast.AsyncWith)):
+        return [it.context_expr for it in st.items]
+    return []
+
+
+def inline_new_temps(fn: ast.AST, base_locals) -> int:
+    names, _ = scope_locals(fn)
+    new = names - set(base_locals)
+    if not new:
+        return 0
+    stores: Dict[str, int] = {}
+    loads: Dict[str, int] = {}
+    for n in ast.walk(fn):
+        if isinstance(n, ast.Name):
+            d = loads if isinstance(n.ctx, ast.Load) else stores
+            d[n.id] = d.get(n.id, 0) + 1
+    k = 0
+    for _o, _f, b in list(_blocks(fn)):
+        i = 0
+        while i + 1 < len(b):
+            st = b[i]
+            if (isinstance(st, ast.Assign) and len(st.targets) == 1 and
+                    isinstance(st.targets[0], ast.Name) and
+                    st.targets[0].id in new and
+                    stores.get(st.targets[0].id) == 1 and
+                    _pure(st.value) and not isinstance(st.value,
+                                                       ast.Constant)):
+                t = st.targets[0].id
+                hdr = _header(b[i + 1])
+                here = sum(1 for h in hdr for x in ast.walk(h)
+                           if isinstance(x, ast.Name) and x.id == t and
+                           isinstance(x.ctx, ast.Load))
+                if here and here == loads.get(t, 0):
+                    sub = _Subst(t, st.value)
+                    nxt = b[i + 1]
+                    if isinstance(nxt, _SIMPLE):
+                        b[i + 1] = sub.visit(nxt)
+                    elif isinstance(nxt, (ast.If, ast.While)):
+                        nxt.test = sub.visit(nxt.test)
+                    elif isinstance(nxt, (ast.For, ast.AsyncFor)):
+                        nxt.iter = sub.visit(nxt.iter)
+                    else:
+                        for it in nxt.items:
+                            it.context_expr = sub.visit(it.context_expr)
+                    del b[i]
+                    k += 1
+                    continue
+            i += 1
+    return k
+
+
+def _jump_kind(body) -> str:
+    if len(body) != 1:
+        return ''
+    j = body[0]
+    if isinstance(j, ast.Continue):
+        return 'continue'
+    if isinstance(j, ast.Return) and (j.value is None or (
+            isinstance(j.value, ast.Constant) and j.value.value is None)):
+        return 'return'
+    return ''
+
+
+def _guard_sites(fn: ast.AST):
+    """(block, jump kind it may end with) for the blocks where a trailing
+    `if c: rest` and `if not c: jump` + rest are the same program: the body
+    of fn itself (return) and direct loop bodies (continue)"""
+    yield fn.body, 'return'
+    for n in ast.walk(fn):
+        if isinstance(n, (ast.FunctionDef, ast.AsyncFunctionDef)) and \
+                n is not fn:
+            yield n.body, 'return'
+        if isinstance(n, (ast.For, ast.AsyncFor, ast.While)):
+            yield n.body, 'continue'
+
+
+def noelse_ifs(fn: ast.AST) -> List[List[str]]:
+    """[test, shape of body, shape of the rest of the block] for every
+    else-less `if` that sits in a guard site"""
+    out = []
+    for blk, _jk in _guard_sites(fn):
+        for i, st in enumerate(blk):
+            if isinstance(st, ast.If) and not st.orelse:
+                out.append([_abs(st.test, set()), _sig(st.body),
+                            _sig(blk[i + 1:])])
+    return out
+
+
+def undo_guards(fn: ast.AST, base_n: List[List[str]]) -> int:
+    from collections import Counter
+    want = Counter(tuple(x) for x in base_n)
+    sites = list(_guard_sites(fn))
+    for blk, _jk in sites:
+        for i, st in enumerate(blk):
+            if isinstance(st, ast.If) and not st.orelse:
+                key = (_abs(st.test, set()), _sig(st.body),
+                       _sig(blk[i + 1:]))
+                if want[key] > 0:
+                    want[key] -= 1
+                    st._alpha_seen = True
+    k = 0
+    for blk, jk in sites:
+        i = 0
+        while i < len(blk):
+            st = blk[i]
+            if not (isinstance(st, ast.If) and not st.orelse) or \
+                    getattr(st, '_alpha_seen', False):
+                i += 1
+                continue
+            rest = blk[i + 1:]
+            neg = _neg(st.test)
+            if _jump_kind(st.body) == jk and rest:
+                # guard clause now, nested form in the baseline
+                key = (_abs(neg, set()), _sig(rest), _sig([]))
+                if want[key] > 0:
+                    want[key] -= 1
+                    new = ast.copy_location(
+                        ast.If(test=neg, body=rest, orelse=[]), st)
+                    new._alpha_seen = True
+                    blk[i:] = [new]
+                    k += 1
+                    break
+            elif not rest and len(st.body) >= 1:
+                # nested form now, guard clause in the baseline
+                jump = ast.Continue() if jk == 'continue' else \
+                    ast.Return(value=None)
+                for jtxt in ((['continue'] if jk == 'continue'
+                              else ['return', 'return None'])):
+                    key = (_abs(neg, set()), _sig_text(jtxt),
+                           _sig(st.body))
+                    if want[key] > 0:
+                        want[key] -= 1
+                        g = ast.copy_location(
+                            ast.If(test=neg, body=[ast.copy_location(
+                                jump, st)], orelse=[]), st)
+                        g._alpha_seen = True
+                        blk[i:] = [g] + st.body
+                        k += 1
+                        break
+                break
+            i += 1
+    return k
+
+
+def _sig_text(stmt_text: str) -> str:
+    import hashlib
+    return hashlib.sha1(stmt_text.encode()).hexdigest()[:8]
+
+
 def canonicalise_function(key: str, fn: ast.AST) -> int:
     b = baseline().get(key)
     if not b:
-        return 0
+        # nothing recorded (no locals, tests or log statements then, or a
+        # new function): only the additions can be undone
+        return strip_new_logs(fn, []) + inline_new_temps(fn, ())
     mp = align(fn, b.get('l', {}))
     if mp:
         _Rename(mp).visit(fn)
     k = 0
+    k += strip_new_logs(fn, b.get('g', []))
+    k += inline_new_temps(fn, b.get('l', {}))
+    if 'n' in b:
+        k += undo_guards(fn, b.get('n', []))
     if 'c' in b:
         k += undo_flips(fn, b.get('c', []), b.get('b', []))
     if 'i' in b:
